@@ -119,8 +119,6 @@ theorem clearLow_spec {x : BitVec 64} (hx : x ≠ 0#64) (k : Nat) :
 
 /-! ## the set bits of a word, ascending -/
 
-def bitsList (x : BitVec 64) : List Nat := (List.range 64).filter (fun k => x.getLsbD k)
-
 theorem mem_bitsList {x : BitVec 64} {k : Nat} : k ∈ bitsList x ↔ k < 64 ∧ x.getLsbD k = true := by
   simp [bitsList]
 
@@ -167,15 +165,9 @@ theorem popcount_clearLow {x : BitVec 64} (hx : x ≠ 0#64) : popcount (clearLow
 
 /-! ## the cells the loop still has to visit -/
 
-def cellsOfBits (base : Nat) (bits : BitVec 64) : List Nat := (bitsList bits).map (fun k => base + k)
-
 /-- Cells of the blocks `bi, bi+1, …` in order. -/
 def restCells (d : AdjMatrix) (bi : Nat) : List Nat :=
   ((d.blocks.drop bi).zipIdx bi).flatMap (fun p => cellsOfBits (p.2 * 64) p.1)
-
-/-- The cell filter and decoding of the loop body. -/
-def emit (d : AdjMatrix) (cs : List Nat) : List (Nat × Nat) :=
-  (cs.filter (fun c => decide (c < d.order * d.order))).map (fun c => (c / d.order, c % d.order))
 
 theorem emit_cons (d : AdjMatrix) (c : Nat) (cs : List Nat) :
     emit d (c :: cs) = if c < d.order * d.order then (c / d.order, c % d.order) :: emit d cs else emit d cs := by
@@ -300,6 +292,24 @@ theorem restCells_eq_filter (d : AdjMatrix) : ∀ (m bi : Nat), bi + m = d.block
 
 theorem restCells_zero (d : AdjMatrix) : restCells d 0 = (List.range (64 * d.blocks.length)).filter d.cell := by
   rw [restCells_eq_filter d d.blocks.length 0 (by omega), List.range_eq_range']
+
+theorem arcsFold_eq (d : AdjMatrix) : arcsFold d = d.arcs := by
+  have h : (d.blocks.zipIdx).flatMap (fun p => if p.1 = 0#64 then [] else cellsOfBits (p.2 * 64) p.1) =
+      restCells d 0 := by
+    unfold restCells
+    simp only [List.drop_zero]
+    congr 1
+    funext p
+    split
+    · rename_i h0; rw [h0]; simp [cellsOfBits, bitsList_zero]
+    · rfl
+  unfold arcsFold
+  rw [h, restCells_zero]
+  simp only [emit, arcs, List.filter_filter]
+  congr 1
+  apply List.filter_congr
+  intro c _
+  rw [Bool.and_comm]
 
 /-- The literal `ArcsIterator` loop yields exactly the filter form used by `AdjMatrix.arcs`. -/
 theorem arcsIter_eq (d : AdjMatrix) : arcsIter d = d.arcs := by
